@@ -3,10 +3,13 @@
     Round 2 (second half of the file): rescue extraction (lookForRescueTag characterised, canonical read + strand symmetry in rescue
     mode), every iteration order of the tag table, no distance bound on the nearest tag (by design), records cut at the spans of their
     own hit pair for ANY matcher (primer indels), independence of the amplicons of a chimeric read, stability of the sort of the hits,
-    canonical read for any extraction mode / any matcher. *)
+    canonical read for any extraction mode / any matcher.
+    Round 3 (end of the file; model in Cmd.v, lemmas in CmdProofs.v): the glue around the demultiplexer - routing of the records by the
+    obimultiplex command (standard output / --unidentified file / dropped), composed with the safety theorem; the @param lines of a CSV
+    sheet (every primer, one side, ONE primer through the table filled by CheckPrimerUnicity), the command-line overrides. *)
 From Coq Require Import NArith ZArith List Bool Arith Permutation.
 Import ListNotations.
-From OBI.C12 Require Import Model Proofs Rescue Round2.
+From OBI.C12 Require Import Model Proofs Rescue Round2 Cmd CmdProofs.
 Local Open Scope nat_scope.
 
 (** ---- Closest*Tag: the fold over the Go map returns the UNIQUE nearest declared tag, whatever the iteration order ---- *)
@@ -646,6 +649,121 @@ Theorem C12_strand_symmetry_any_extractor :
   Recs (canon_record i m tagF pF bar pR tagR k1 k2 false :: nil))%Z.
 Proof. exact canonical_reverse_gen. Qed.
 
+(** ================= round 3: the command around the demultiplexer ================= *)
+
+(** ---- routing of the records by their error flag (IExtractBarcode); a record is (payload, obimultiplex_error present) ---- *)
+(* with --unidentified, standard output and file together hold every record exactly once *)
+Theorem C12_route_partition : forall A md (recs : list (A * bool)),
+  m_unid md = true -> Permutation recs (fst (route md recs) ++ snd (route md recs)).
+Proof. exact route_partition. Qed.
+
+(* in EVERY mode an unflagged record reaches the standard output *)
+Theorem C12_route_never_loses_an_unflagged_record : forall A md (recs : list (A * bool)) r,
+  In r recs -> snd r = false -> In r (fst (route md recs)).
+Proof. exact route_unflagged_kept. Qed.
+
+(* unless --keep-errors alone is given, the standard output holds unflagged records only (and nothing it was not given) *)
+Theorem C12_route_output_unflagged_unless_kept : forall A md (recs : list (A * bool)) r,
+  md <> MKeep -> In r (fst (route md recs)) -> snd r = false /\ In r recs.
+Proof. exact route_stdout_unflagged. Qed.
+
+(* the file holds flagged records only, and only when it was asked for *)
+Theorem C12_route_file_only_flagged : forall A md (recs : list (A * bool)) r,
+  In r (snd (route md recs)) -> snd r = true /\ m_unid md = true /\ In r recs.
+Proof. exact route_file_flagged. Qed.
+
+(* "otherwise it is output flagged with an error": a flagged record is written somewhere in every mode but the default one *)
+Theorem C12_route_flagged_lost_only_by_default : forall A md (recs : list (A * bool)) r,
+  md <> MDefault -> In r recs -> In r (fst (route md recs) ++ snd (route md recs)).
+Proof. exact route_flagged_somewhere. Qed.
+
+(* composed with SAFETY: whatever the matcher found, a record the command writes on its standard output (errors not kept) carries a
+   sample, and the tag pair proposed from its extracted tags under the declared modes is declared for its marker with that sample *)
+Theorem C12_command_output_is_identified : forall lib s hits rs md r,
+  demux_hits lib s hits = Recs rs -> md <> MKeep ->
+  In (with_flag r) (fst (route md (map with_flag rs))) -> In r rs ->
+  let m := nth (N.to_nat (r_mk r)) lib dummy_marker in
+  let p := proposed_pair m (r_ft r, r_rt r) in
+  exists id, r_sample r = Some id /\ In (fst p, snd p, id) (m_samples m).
+Proof. exact command_stdout_identified. Qed.
+
+(* ... and every record that got a sample is on the standard output, in every mode *)
+Theorem C12_command_sample_always_on_output : forall lib s hits rs md r id,
+  demux_hits lib s hits = Recs rs -> In r rs -> r_sample r = Some id ->
+  In (with_flag r) (fst (route md (map with_flag rs))).
+Proof. exact command_sample_on_stdout. Qed.
+
+(** ---- @param lines of a CSV sheet ---- *)
+(* a two-argument line naming the forward primer of a marker changes the forward side of THAT marker and nothing else
+   (hypothesis = what CheckPrimerUnicity enforces: no primer is used twice) *)
+Theorem C12_per_primer_param_forward : forall l1 m l2 fld,
+  NoDup (primers_of (l1 ++ m :: l2)) ->
+  apply_param (table_of (l1 ++ m :: l2)) (l1 ++ m :: l2) (mkP (For (p_fwd m)) fld) = l1 ++ on_f (upd fld) m :: l2.
+Proof. exact per_primer_forward. Qed.
+
+Theorem C12_per_primer_param_reverse : forall l1 m l2 fld,
+  NoDup (primers_of (l1 ++ m :: l2)) ->
+  apply_param (table_of (l1 ++ m :: l2)) (l1 ++ m :: l2) (mkP (For (p_rev m)) fld) = l1 ++ on_r (upd fld) m :: l2.
+Proof. exact per_primer_reverse. Qed.
+
+(* a line naming a primer the sheet does not use changes nothing (it is never applied to another primer) *)
+Theorem C12_per_primer_param_unknown_primer_ignored : forall lib pr fld,
+  ~ In pr (primers_of lib) -> apply_param (table_of lib) lib (mkP (For pr) fld) = lib.
+Proof. exact per_primer_unknown. Qed.
+
+(* THE ORDERING DEPENDENCY of ReadCSVNGSFilter: with the table of primers still empty (CheckPrimerUnicity not run yet) every
+   one-primer line is silently a no-op - the reader must fill the table before it applies the parameters *)
+Theorem C12_per_primer_param_needs_primer_table : forall lib pr fld, apply_param [] lib (mkP (For pr) fld) = lib.
+Proof. exact per_primer_needs_table. Qed.
+
+(* lines of the same kind and scope: the last one wins; a line for every primer erases an earlier one-primer line *)
+Theorem C12_param_last_line_wins : forall tbl lib sc a b, same_kind a b = true ->
+  apply_param tbl (apply_param tbl lib (mkP sc a)) (mkP sc b) = apply_param tbl lib (mkP sc b).
+Proof. exact last_line_wins. Qed.
+
+Theorem C12_global_param_erases_per_primer_param : forall tbl lib pr a b, same_kind a b = true ->
+  apply_param tbl (apply_param tbl lib (mkP (For pr) a)) (mkP Both b) = apply_param tbl lib (mkP Both b).
+Proof. exact global_line_erases_per_primer_line. Qed.
+
+(* parameters never change the set of markers: the table built before them remains the table of the library *)
+Theorem C12_params_keep_the_primers : forall tbl lib p,
+  map (fun m => (p_fwd m, p_rev m)) (apply_param tbl lib p) = map (fun m => (p_fwd m, p_rev m)) lib.
+Proof. exact apply_param_primers. Qed.
+
+(* library.Markers is a Go map: the settings every marker ends with do not depend on the order in which the markers are met, nor
+   on the order in which CheckPrimerUnicity filled the table (no primer used twice) *)
+Theorem C12_params_marker_order_independent : forall lib lib' ps,
+  Permutation lib lib' -> NoDup (primers_of lib) -> Permutation (read_params lib ps) (read_params lib' ps).
+Proof. exact read_params_order_independent. Qed.
+
+(** ---- command line: -e N overrides the budget of every primer when N > 0, and is ignored otherwise ---- *)
+Theorem C12_cli_mismatches_override : forall tbl lib e, (0 < e)%Z ->
+  apply_params tbl lib (cli_params e false) =
+  map (fun m => on_r (upd (FErr (Z.to_N e))) (on_f (upd (FErr (Z.to_N e))) m)) lib.
+Proof. exact cli_budget. Qed.
+
+Theorem C12_cli_nonpositive_mismatches_ignored : forall tbl lib e, (e <= 0)%Z -> apply_params tbl lib (cli_params e false) = lib.
+Proof. exact cli_nothing. Qed.
+
+(* the hypotheses are met: two markers with four distinct primers; a spacer for the reverse primer of the second one *)
+Example C12_per_primer_nonvacuous :
+  let m1 := mkPM [97;99]%N [103;116]%N default_side default_side in
+  let m2 := mkPM [99;99]%N [116;116]%N default_side default_side in
+  NoDup (primers_of ([m1] ++ m2 :: [])) /\
+  read_params [m1; m2] [mkP (For [116;116]%N) (FSpacer 2)] = [m1; mkPM [99;99]%N [116;116]%N default_side (mkS 2 2 0 0 0 false)].
+Proof.
+  split; [|vm_compute; reflexivity].
+  simpl. repeat constructor; simpl; intuition discriminate.
+Qed.
+
+(* default mode drops the flagged record, -u sends it to the file, --keep-errors keeps it on the output *)
+Example C12_route_nonvacuous :
+  route MDefault [(0%N, false); (1%N, true)] = ([(0%N, false)], []) /\
+  route MUnid [(0%N, false); (1%N, true)] = ([(0%N, false)], [(1%N, true)]) /\
+  route MKeep [(0%N, false); (1%N, true)] = ([(0%N, false); (1%N, true)], []) /\
+  route MKeepUnid [(0%N, false); (1%N, true)] = ([(0%N, false)], [(1%N, true)]).
+Proof. repeat split. Qed.
+
 Print Assumptions C12_closest_unique.
 Print Assumptions C12_closest_none_iff_tie.
 Print Assumptions C12_closest_order_independent.
@@ -692,3 +810,20 @@ Print Assumptions C12_sort_hits_stable.
 Print Assumptions C12_canonical_delimited_any_matcher.
 Print Assumptions C12_canonical_read_any_extractor.
 Print Assumptions C12_strand_symmetry_any_extractor.
+Print Assumptions C12_route_partition.
+Print Assumptions C12_route_never_loses_an_unflagged_record.
+Print Assumptions C12_route_output_unflagged_unless_kept.
+Print Assumptions C12_route_file_only_flagged.
+Print Assumptions C12_route_flagged_lost_only_by_default.
+Print Assumptions C12_command_output_is_identified.
+Print Assumptions C12_command_sample_always_on_output.
+Print Assumptions C12_per_primer_param_forward.
+Print Assumptions C12_per_primer_param_reverse.
+Print Assumptions C12_per_primer_param_unknown_primer_ignored.
+Print Assumptions C12_per_primer_param_needs_primer_table.
+Print Assumptions C12_param_last_line_wins.
+Print Assumptions C12_global_param_erases_per_primer_param.
+Print Assumptions C12_params_keep_the_primers.
+Print Assumptions C12_cli_mismatches_override.
+Print Assumptions C12_cli_nonpositive_mismatches_ignored.
+Print Assumptions C12_params_marker_order_independent.
